@@ -632,6 +632,10 @@ def noncanon(payload, kind, extra):
         return ref_cbor(payload) + (extra or b"\x00")
     if kind == 2:
         return ref_cbor(payload + (extra or b"\x00"))[:-len(extra or b"\x00")]
+    if kind == 4 and n <= 65535:                                # two-byte length whatever the size
+        return b"\x59" + n.to_bytes(2, "big") + payload
+    if kind == 5:                                               # wider prefix AND trailing bytes (n = 0: count 0, bytes present)
+        return noncanon(payload, 0, extra) + (extra or b"\x00")
     return b"\x60" + n.to_bytes(4, "big") + payload
 
 
@@ -841,7 +845,320 @@ def p_helper_fields(chk, payload, x, y, case):
     return None
 
 
-PROPS = {"cbor_rt": p_cbor_rt, "convertbits_rt": p_convertbits_rt, "bc32_rt": p_bc32_rt, "bc32_sub": p_bc32_sub,
+# ---------------------------------------------------------------- entry-point audit (kinds a, b, c, e, f, g)
+# (e) LENIENT decoders: a character outside the alphabet read as some integer u (str.find -> -1, dict.get(c, 0) -> 0,
+#     a longer table -> 32.., a look-alike table o->0, 1/i->l, b->6) instead of refusing the text.  For u outside
+#     0..31 a single substitution never passes the checksum - the neighbouring symbols have to compensate (the polymod
+#     is affine over GF(2) in the symbols, also for negative / wide integers), so such texts are SOLVED for here.
+# (f) per-part attributes (case, white space, length, x, y, checksum) that DIFFER between the parts of one message.
+# (g) results and sources used again: returned lists edited and the object asked again, argument lists after the call,
+#     a refused call followed by the good one on the same list.
+# (a, b) every callable with its defaults, positionally and by keyword.
+# (c) CBOR wrappers as a full matrix prefix width x declared length x bytes present (count 0 with bytes present, ...).
+
+FOREIGN = "1bio-_ .\x00\xff"                   # never in the alphabet, in either case
+LOOKALIKE = {"0": "oO", "l": "1iI", "6": "b", "q": "1-_.\x00"}    # legal character -> foreign ones a lenient table reads as it
+
+
+def _legal(c):
+    return c in B32 or ("A" <= c <= "Z" and chr(ord(c) + 32) in B32)
+
+
+def _gf2_solve(f, nbits, target):
+    """x (nbits bits) with f(x) == target for a map f that is affine over GF(2); None when there is none"""
+    base = f(0)
+    want = target ^ base
+    if want < 0:
+        return None
+    basis = {}
+    for b in range(nbits):
+        v, comb = f(1 << b) ^ base, 1 << b
+        while v > 0:
+            p = v.bit_length() - 1
+            if p not in basis:
+                basis[p] = (v, comb)
+                break
+            v, comb = v ^ basis[p][0], comb ^ basis[p][1]
+    x = 0
+    while want:
+        p = want.bit_length() - 1
+        if p not in basis:
+            return None
+        want, x = want ^ basis[p][0], x ^ basis[p][1]
+    return x
+
+
+def compensate(r, data, pos, u, keep=0):
+    """symbols (len(data) data symbols + 6) of a text that a decoder reading the character at `pos` as the integer u
+    finds correctly check-summed: the six symbols after the data (pos in the data part) or the six symbols before
+    `pos` (pos in the checksum part; the first `keep` data symbols are never touched) are solved for.  None if there
+    is no such text / the padding bits of the last data symbol cannot be kept zero."""
+    m = len(data)
+    pad = (1 << (5 * m % 8)) - 1 if 5 * m % 8 < 5 else 0
+    for _ in range(80):
+        vals = list(data) + [r.randrange(32) for _ in range(6)]
+        lo = m if pos < m else pos - 6
+        if lo < keep or lo < 0:
+            return None
+        for k in range(keep, min(lo, m)):
+            if r.random() < 0.3 and k != m - 1:
+                vals[k] = r.randrange(32)               # fresh neighbours for another try
+        vals[pos] = u
+
+        def f(x):
+            v = list(vals)
+            for k in range(6):
+                v[lo + k] = (x >> 5 * (5 - k)) & 31
+            return ref_polymod([0] + v)
+        x = _gf2_solve(f, 30, 0x3fffffff)
+        if x is None:
+            return None
+        for k in range(6):
+            vals[lo + k] = (x >> 5 * (5 - k)) & 31
+        assert ref_polymod([0] + vals) == 0x3fffffff
+        if pos < m or not (vals[m - 1] & pad):
+            return vals
+    return None
+
+
+def _sym_text(vals, pos, ch):
+    return "".join(ch if k == pos else B32[v] for k, v in enumerate(vals))
+
+
+def _sym_bytes(syms):
+    """whole bytes of 5-bit symbols (what a decoder makes of them), padding ignored"""
+    bits = "".join(format(s & 31, "05b") for s in syms)
+    return bytes(int(bits[i:i + 8], 2) for i in range(0, len(bits) // 8 * 8, 8))
+
+
+def _refused(f, *a, **kw):
+    r, e = _exc(f, *a, **kw)
+    return e is not None or r is None
+
+
+def p_foreign_fields(chk, pay, y):
+    """BCUR strings whose payload text and / or 58-character checksum field contain a character outside the bech32
+    alphabet: refused by every parser and decoder - also when the rest of the text is arranged so that a decoder
+    which READS the foreign character (as -1, 0, 31, 32, a look-alike ...) finds checksum and digest right"""
+    chk, pay = T(chk), T(pay)
+    bad_p = any(not _legal(c) for c in pay)
+    bad_c = any(not _legal(c) for c in chk)
+    if not (bad_p or bad_c) or "/" in chk + pay:
+        return "generator: no foreign character in either field"
+    where = "payload text" if bad_p else "checksum field"
+    if bad_p:
+        for f, a in ((bech32.bc32decode, (pay,)), (bcur.bcur_decode, (pay,)), (bcur.bcur_decode, (pay, None))):
+            if not _refused(f, *a):
+                return f"{f.__name__} accepts the text {pay[:70]!r} with a character outside the alphabet"
+    if bad_c and len(chk) and not _refused(bech32.bc32decode, chk):
+        return f"bc32decode accepts the digest text {chk[:70]!r} with a character outside the alphabet"
+    if not _refused(bcur.bcur_decode, pay, chk):
+        return f"bcur_decode accepts {pay[:50]!r} / {chk[:50]!r} (foreign character in the {where})"
+    if pay.strip() != pay or chk.strip() != chk:
+        return None                                             # str.strip() would legitimately remove it at the ends
+    forms = [f"ur:bytes/{chk}/{pay}", f"ur:bytes/1of1/{chk}/{pay}"] + ([f"ur:bytes/{pay}"] if bad_p else [])
+    for s in forms:
+        for v in (s, s.upper() if s.upper().lower() == s.lower() else s):
+            r_, e = _exc(bcur.BCURSingle.parse, v)
+            if e is None:
+                return f"BCURSingle.parse accepts {v[:90]!r} (foreign character in the {where})"
+            r_, e = _exc(bcur.BCURMulti.parse, [v])
+            if e is None:
+                return (f"BCURMulti.parse accepts {v[:90]!r} (foreign character in the {where}) and gives "
+                        f"{a2b_base64(r_.text_b64)[:16]!r}…")
+    y = max(1, min(y, len(pay)))
+    cl = -(-len(pay) // y)
+    strings = [f"ur:bytes/{i + 1}of{y}/{chk}/{pay[i * cl:(i + 1) * cl]}" for i in range(y)]
+    if all(s.strip() == s for s in strings):
+        r_, e = _exc(bcur.BCURMulti.parse, strings)
+        if e is None:
+            return (f"BCURMulti.parse accepts {y} parts with a foreign character in the {where} and gives "
+                    f"{a2b_base64(r_.text_b64)[:16]!r}…")
+    return None
+
+
+def p_charset(t):
+    """uses_only_bech32_chars called directly equals a per-character test; _parse_bcur_helper never hands on a field
+    that contains a character outside the alphabet"""
+    t = T(t)
+    want = all(_legal(c) for c in t)
+    note = " (regex `$` before a trailing newline)" if t.endswith("\n") and all(_legal(c) for c in t[:-1]) else ""
+    got, e = _exc(bech32.uses_only_bech32_chars, t)
+    if e is not None:
+        return f"uses_only_bech32_chars({t[:60]!r}) raises {type(e).__name__}"
+    if type(got) is not bool or got != want:
+        return f"uses_only_bech32_chars({t[:60]!r}) is {got!r}, expected {want}{note}"
+    strings = [f"ur:bytes/{t}", f"ur:bytes/1of2/{'q' * 58}/{t}", f"ur:bytes/{'q' * 58}/{t}"]
+    if len(t) == 58:
+        strings += [f"ur:bytes/1of2/{t}/q", f"ur:bytes/{t}/q"]
+    for s in strings:
+        h, e = _exc(bcur._parse_bcur_helper, s)
+        if e is None and any(c not in B32 for c in h[0] + (h[1] or "")):
+            return f"_parse_bcur_helper({s[:80]!r}) returns a field with a character outside the alphabet{note}"
+    return None
+
+
+def free_strings(payload, cuts, cases, ws):
+    enc, chk = ref_bc32(ref_cbor(payload)), ref_chk(payload)
+    cuts = sorted(c % (len(enc) + 1) for c in cuts)
+    edges = [0] + cuts + [len(enc)]
+    pieces = [enc[a:b] for a, b in zip(edges, edges[1:])]
+    y = len(pieces)
+    strings = []
+    for i, pc in enumerate(pieces):
+        s = _case(f"ur:bytes/{i + 1}of{y}/{chk}/{pc}", cases[i % len(cases)] if cases else 0)
+        if ws:
+            s = WS[(ws + i) % len(WS)] * (i % 3) + s + WS[(ws * 7 + i) % len(WS)] * ((i + ws) % 2)
+        strings.append(s)
+    return strings, pieces, enc, chk
+
+
+def p_multi_free(payload, cuts, cases, ws):
+    """the bc32 text cut at ARBITRARY places (unequal, one-character and empty pieces), every part in its own case
+    pattern and with its own surrounding white space: parses to exactly the payload; the object holds the reference
+    text, digest and base64; the list handed in is unchanged"""
+    strings, pieces, enc, chk = free_strings(payload, cuts, cases, ws)
+    for arg in (list(strings), tuple(strings)):
+        before = list(arg)
+        o, e = _exc(bcur.BCURMulti.parse, arg)
+        if e is not None:
+            return (f"BCURMulti.parse refuses a complete ordered message cut into pieces of lengths "
+                    f"{[len(p) for p in pieces][:12]} with per-part case patterns {list(cases)[:8]}: {type(e).__name__}")
+        if list(arg) != before:
+            return "BCURMulti.parse changes the list it is given"
+        if a2b_base64(o.text_b64) != payload:
+            return "BCURMulti.parse of unequal / differently cased parts gives different data"
+        if o.text_b64 != b64(payload) or o.encoded != enc or o.enc_hash != chk or o.checksum != chk:
+            return "the parsed object holds a wrong base64 text / encoding / digest"
+    return None
+
+
+def ref_cbor_dec(data):
+    """what cbor_decode does today: ('ok', bytes) / ('none',) / ('raise',); short reads are silent"""
+    if not data:
+        return ("raise",)
+    b = data[0]
+    if 0x40 <= b < 0x58:
+        return ("ok", data[1:1 + b - 0x40])
+    w = {0x58: 1, 0x59: 2, 0x60: 4}.get(b)
+    if w is None:
+        return ("none",)
+    if w == 1 and len(data) < 2:
+        return ("raise",)
+    n = int.from_bytes(data[1:1 + w], "big")
+    return ("ok", data[1 + w:1 + w + n])
+
+
+def p_cbor_dec(data):
+    want = ref_cbor_dec(data)
+    got, e = _exc(bech32.cbor_decode, data)
+    have = ("raise",) if e is not None else ("none",) if got is None else ("ok", got)
+    if have != want:
+        return f"cbor_decode({data[:12].hex()}…, {len(data)} bytes) gives {have!r:.60}, expected {want!r:.60}"
+    return None
+
+
+def p_entry(payload, other, chunk):
+    """every public callable with its DEFAULT arguments, positionally and by keyword; results edited by the caller
+    and the same object / function asked again; argument lists after the call; refused call, then the good one"""
+    enc, chk = ref_bc32(ref_cbor(payload)), ref_chk(payload)
+    ochk = ref_chk(other)
+    t = b64(payload)
+    # ---- bcur_decode(data, checksum=None)
+    for a, kw in (((enc,), {}), ((), {"data": enc}), ((enc, None), {}), ((enc, chk), {}), ((), {"data": enc, "checksum": chk}),
+                  ((enc,), {"checksum": chk}), ((enc.upper(),), {}), ((enc.upper(), chk.upper()), {})):
+        r_, e = _exc(bcur.bcur_decode, *a, **kw)
+        if e is not None or r_ != payload:
+            return f"bcur_decode{a[1:] and '(text, digest)' or '(text)'} with {sorted(kw)} does not give the payload"
+    if ochk != chk:
+        for a, kw in (((enc, ochk), {}), ((enc,), {"checksum": ochk}), ((), {"data": enc, "checksum": ochk}), ((enc, ""), {}),
+                      ((enc, chk[:-1]), {})):
+            if not _refused(bcur.bcur_decode, *a, **kw):
+                return "bcur_decode accepts a digest of other data / a damaged digest"
+    got, e = _exc(bcur.bcur_encode, data=payload)
+    if e is not None or type(got) is not tuple or got != (enc, chk):
+        return "bcur_encode(data=…) differs from the reference pair"
+    # ---- constructors: positional order is (text_b64, encoded, checksum)
+    for cls in (bcur.BCURSingle, bcur.BCURMulti):
+        o, e = _exc(cls, t, enc, chk)
+        if e is not None or (o.encoded, o.enc_hash, o.text_b64) != (enc, chk, t):
+            return f"{cls.__name__}(text, encoded, checksum) given positionally is refused / garbled"
+        if not _refused(cls, t, chk, enc):
+            return f"{cls.__name__}(text, checksum, encoded) - arguments swapped - is accepted"
+        o, e = _exc(cls, t)
+        if e is not None or (o.encoded, o.enc_hash, o.text_b64) != (enc, chk, t):
+            return f"{cls.__name__}(text) is refused / garbled"
+        o2, e = _exc(cls, t.encode())                            # base64 as bytes: a2b_base64 takes both
+        if e is None and (o2.encoded, o2.enc_hash) != (enc, chk):
+            return f"{cls.__name__}(bytes) holds a wrong encoding"
+    # ---- BCURSingle.encode(use_checksum=True)
+    s = bcur.BCURSingle(t)
+    want1, want0 = f"ur:bytes/{chk}/{enc}", f"ur:bytes/{enc}"
+    outs = [s.encode(), s.encode(True), s.encode(use_checksum=True), repr(s), s.encode(False), s.encode(use_checksum=False),
+            s.encode(), str(s)]
+    if outs != [want1, want1, want1, want1, want0, want0, want1, want1]:
+        return "BCURSingle.encode: default / positional / keyword use_checksum disagree with the reference strings"
+    # ---- BCURMulti.encode(max_size_per_chunk=300, animate=True): results edited, object asked again
+    m = bcur.BCURMulti(t)
+    for call, want in ((lambda: m.encode(chunk), ref_parts(payload, chunk)),
+                       (lambda: m.encode(chunk, True), ref_parts(payload, chunk)),
+                       (lambda: m.encode(chunk, False), ref_parts(payload, 1, False)),
+                       (lambda: m.encode(animate=False), ref_parts(payload, 1, False)),
+                       (lambda: m.encode(), ref_parts(payload, 300)),
+                       (lambda: m.encode(max_size_per_chunk=chunk), ref_parts(payload, chunk))):
+        a = call()
+        if type(a) is not list or a != want:
+            return "BCURMulti.encode (positional / keyword / default arguments) differs from the reference chunking"
+        a.reverse()
+        a.append("ur:bytes/junk")
+        a[0] = a[0].upper()
+        b = call()
+        if b is a or b != want:
+            return "BCURMulti.encode hands out the same list again: edits of the first result show in the second"
+    if (m.encoded, m.enc_hash, m.text_b64, m.checksum) != (enc, chk, t, None):
+        return "encode() changes the object"
+    # ---- BCURMulti.parse: the argument list afterwards; a refused call, then the good one with the same list
+    parts = ref_parts(payload, chunk)
+    keep = list(parts)
+    if len(parts) > 1:
+        rev = parts[::-1]
+        if not _refused(bcur.BCURMulti.parse, rev) or rev != keep[::-1]:
+            return "reversed parts accepted / list changed by the refused call"
+        short = parts[:-1]
+        if not _refused(bcur.BCURMulti.parse, short) or short != keep[:-1]:
+            return "parts without the last one accepted / list changed by the refused call"
+    for n in range(2):
+        o, e = _exc(bcur.BCURMulti.parse, parts)
+        if e is not None or a2b_base64(o.text_b64) != payload or parts != keep:
+            return f"BCURMulti.parse (call {n + 1} on the same list) fails / changes its argument"
+    o.text_b64, o.encoded = "", ""                               # edit the result, parse again
+    o3, e = _exc(bcur.BCURMulti.parse, parts)
+    if e is not None or (o3.text_b64, o3.encoded, o3.checksum) != (t, enc, chk):
+        return "a second parse shows the edits made to the first result"
+    # ---- the list-valued codecs: arguments unchanged, results fresh
+    five = ref_conv(payload, 8, 5, True)
+    arg = list(payload)
+    a = bech32.convertbits(arg, 8, 5)
+    if arg != list(payload) or a != five:
+        return "convertbits changes its argument / differs from the reference"
+    a.append(99)
+    if bech32.convertbits(arg, 8, 5) != five or bech32.convertbits(arg, 8, 5, True) != five \
+            or bech32.convertbits(arg, 8, 5, pad=True) != five:
+        return "convertbits: second call / explicit pad=True differs"
+    arg5 = list(five)
+    back = bech32.convertbits(arg5, 5, 8, False)
+    if arg5 != five or back != list(payload):
+        return "convertbits 5->8 changes its argument / differs"
+    vals = [0] + five + [0] * 6
+    arg = list(vals)
+    if bech32.bech32_polymod(arg) != ref_polymod(vals) or arg != vals:
+        return "bech32_polymod changes its argument / differs from the reference"
+    return None
+
+
+PROPS = {"foreign_fields": p_foreign_fields, "charset": p_charset, "multi_free": p_multi_free, "cbor_dec": p_cbor_dec,
+         "entry": p_entry,
+         "cbor_rt": p_cbor_rt, "convertbits_rt": p_convertbits_rt, "bc32_rt": p_bc32_rt, "bc32_sub": p_bc32_sub,
          "multi_rt": p_multi_rt, "multi_select": p_multi_select, "multi_tamper": p_multi_tamper,
          "part_sub": p_part_sub, "bcur_session": p_bcur_session, "part_sub_unicode": p_part_sub_unicode,
          "str_types": p_str_types, "single_header": p_single_header, "default_chunk": p_default_chunk,
@@ -1353,6 +1670,181 @@ def charclass(ctx):
             yield ("corr", "single_parse_str", [_case(f"ur:bytes/{pl}", case).encode()])
 
 
+def _l1(t):
+    return t.encode("latin-1")
+
+
+def entrypoints(ctx):
+    """entry-point audit: lenient-decoder texts with compensation (e), parts that differ in an attribute (f), results /
+    arguments used again (g), defaults and positional / keyword forms of every callable (a, b), CBOR wrapper matrix (c)"""
+    r = ctx.rng
+    quick = ctx.tier == "quick"
+    ascii_ = lambda t: all(ord(c) < 128 for c in t)  # noqa: E731
+
+    def readings(ch):
+        base = [-1, 0, 31, 32, 33, 35, 63, 255, -2, 1 << 30, ord(ch), ord(ch) - 48, ord(ch) - 97, ord(ch) & 31]
+        return base if not quick else [-1, 0, 32] + r.sample(base[2:], 3)
+    # ---- (e) bc32 layer: a foreign character read as u, neighbours compensated
+    for nbytes in ((5, 10, 16) if quick else (1, 4, 5, 8, 10, 15, 16, 25, 40)):
+        for ch in FOREIGN:
+            data = ref_conv(ctx.rbytes(nbytes), 8, 5, True)
+            m = len(data)
+            for pos in sorted({r.randrange(m), m - 1, m, m + r.randrange(1, 5), m + 5}):
+                for u in readings(ch):
+                    vals = compensate(r, data, pos, u)
+                    part = "data" if pos < m else "checksum"
+                    if vals is None:
+                        ctx.label(f"foreign/bc32/no-such-text/{part}/read-as-{'-1' if u == -1 else 'sym' if 0 <= u < 32 else 'wide'}")
+                        continue
+                    ctx.label(f"foreign/bc32/{part}-part/read-as-{'-1' if u == -1 else 'symbol' if 0 <= u < 32 else 'wide-or-negative'}")
+                    t = _sym_text(vals, pos, ch)
+                    yield ("prop", "bc32_text", [_l1(t)])
+                    if ascii_(t):
+                        yield ("corr", "bc32decode", [t.encode()])
+                        if r.random() < 0.3:
+                            yield ("corr", "bc32decode", [t.upper().encode()])
+    # ---- (e) BCUR layer: the lenient reading is a CBOR wrapping of other data, the digest field is right for it
+    for n in ((8, 30, 100, 300) if quick else (6, 8, 20, 23, 24, 30, 100, 255, 256, 300, 1000)):
+        payload = ctx.rbytes(n)
+        cb = ref_cbor(payload)
+        data = ref_conv(cb, 8, 5, True)
+        m, hpos = len(data), -(-8 * (len(cb) - n) // 5)
+        for ch in (r.sample(FOREIGN, 4) if quick else FOREIGN):
+            spots = [(m + j, u) for j in (0, r.randrange(1, 5), 5) for u in ([-1, 32] if quick else [-1, 32, 33, -2, 255])]
+            spots += [(r.randrange(hpos, m), u) for u in (0, 31, 15)]
+            for pos, u in spots:
+                vals = compensate(r, data, pos, u, keep=hpos)
+                if vals is None:
+                    ctx.label("foreign/bcur/no-such-text")
+                    continue
+                seen = list(vals[:m])
+                if pos < m:
+                    seen[pos] = u & 31
+                chk = ref_bc32(hashlib.sha256(_sym_bytes(seen)).digest())
+                t = _sym_text(vals, pos, ch)
+                y = r.choice([1, 2, 3, 5])
+                ctx.label("foreign/bcur/compensated-in-checksum-part" if pos >= m else "foreign/bcur/read-as-symbol-in-data-part")
+                yield ("prop", "foreign_fields", [_l1(chk), _l1(t), y])
+                if ascii_(t):
+                    yield ("corr", "bcur_decode", [t.encode(), [chk.encode()]])
+                    yield ("corr", "bcur_decode", [t.encode(), []])
+                    yield ("corr", "multi_parse_str", [[f"ur:bytes/1of1/{chk}/{t}".encode()]])
+                    yield ("corr", "single_parse_str", [f"ur:bytes/{chk}/{t}".encode()])
+    # ---- (e) look-alike tables: a legal character replaced by the foreign one such a table reads as it
+    for n in ((0, 10, 40, 200) if quick else (0, 1, 10, 23, 24, 40, 100, 200, 256, 600)):
+        payload = ctx.rbytes(n)
+        enc, chk = ref_bc32(ref_cbor(payload)), ref_chk(payload)
+        for legal, subs in LOOKALIKE.items():
+            for field, text in ((1, enc), (0, chk)):
+                where = [i for i, c in enumerate(text) if c == legal]
+                where = sorted({where[0], where[-1], r.choice(where)}) if where else []
+                for i in where:
+                    for sub in subs:
+                        t = text[:i] + sub + text[i + 1:]
+                        for up in ((0, 1) if not quick else (r.randrange(2),)):
+                            c2, p2 = (chk, t) if field else (t, enc)
+                            if up:
+                                c2, p2 = c2.upper(), p2.upper()
+                            ctx.label("foreign/look-alike/" + ("payload-text" if field else "checksum-field"))
+                            yield ("prop", "foreign_fields", [_l1(c2), _l1(p2), r.choice([1, 2, 3])])
+                            if r.random() < 0.25 and ascii_(c2 + p2):
+                                yield ("corr", "multi_parse_str", [[f"ur:bytes/1of1/{c2}/{p2}".encode()]])
+                                yield ("corr", "bcur_decode", [p2.encode(), [c2.encode()]])
+    # ---- the charset test called directly, and what the header parser hands on
+    dig, let = "".join(B32[i] for i in _DIG), "".join(B32[i] for i in _LET)
+    texts = ["", "q", "Q", "qQ", dig, let, let.upper(), B32, B32.upper(), "q" * 58, "2" * 58]
+    for ch in FOREIGN + WS + "\x7f\x85\xa0\xb5\xdf/:ABIO":
+        for k in (1, 5, 58):
+            base = "".join(r.choice(B32) for _ in range(k))
+            for i in sorted({0, k // 2, k - 1}):
+                texts.append(base[:i] + ch + base[i + 1:])
+            texts.append(base + ch)
+        texts += [ch, ch * 3]
+    for t in texts:
+        if t.endswith("\n") and all(_legal(c) for c in t[:-1]):
+            ctx.label("charset/skipped-known-finding-trailing-newline")      # K-C20-charset-trailing-newline
+            continue
+        ctx.label("charset/" + ("legal" if all(_legal(c) for c in t) else "foreign"))
+        yield ("prop", "charset", [_l1(t)])
+        if ascii_(t) and r.random() < (0.3 if quick else 1):
+            yield ("corr", "parse_helper_str", [f"ur:bytes/{t}".encode()])
+            if len(t) == 58:
+                yield ("corr", "parse_helper_str", [f"ur:bytes/1of2/{t}/q".encode()])
+    # ---- (f) the part that differs is the first / the second / the last one
+    for _ in range(ctx.n(6, 60)):
+        n = r.randrange(30, 200)
+        payload, other = ctx.rbytes(n), ctx.rbytes(n)
+        chunk = r.choice([10, 25, 60])
+        y = len(ref_parts(payload, chunk))
+        for idx in sorted({0, 1, y - 1}):
+            for kind in range(5):
+                ctx.label("tamper/position-" + ("first" if idx == 0 else "last" if idx == y - 1 else "second"))
+                yield ("prop", "multi_tamper", [payload, other, chunk, idx, kind, r.choice([0, 1, 2, y - 1, y + 1, 99])])
+    # ---- (f) parts of unequal length (one character, empty), every part in its own case / white space
+    for k in range(ctx.n(40, 500)):
+        n = r.choice([0, 1, 5, 23, 24, 60, r.randrange(0, 300)])
+        payload = ctx.rbytes(n)
+        L = enc_len_of(n)
+        ncuts = r.choice([0, 1, 1, 2, 3, 4, 6])
+        cuts = [r.choice([0, 1, L - 1, L, r.randrange(L + 1), r.randrange(L + 1)]) for _ in range(ncuts)]
+        if k % 5 == 0 and cuts:
+            cuts.append(cuts[0])                                  # an empty piece in the middle
+        cases = r.choice([[0, 1], [1, 0], [0, 0, 1], [1, 1, 0], [2, 3], [4, 0], [r.randrange(5) for _ in range(7)], [0], [1]])
+        ws = r.choice([0, 0, r.randrange(1, 10)])
+        ctx.label("free-parts/" + ("empty-piece" if len(set(cuts)) < len(cuts) or 0 in cuts or L in cuts else "unequal-pieces")
+                  + ("/per-part-case" if len(set(cases)) > 1 and ncuts else ""))
+        yield ("prop", "multi_free", [payload, cuts, cases, ws])
+        strings = free_strings(payload, cuts, cases, ws)[0]
+        yield ("corr", "multi_parse_str", [[s.encode() for s in strings]])
+        if len(strings) > 1 and r.random() < 0.5:                 # and one of them damaged / moved
+            j = r.randrange(len(strings))
+            bad = list(strings)
+            if r.random() < 0.5:
+                bad[j] = _flip(bad[j].rstrip(WS), r.randrange(1000), r.randrange(1, 31))
+            else:
+                bad[j], bad[j - 1] = bad[j - 1], bad[j]
+            yield ("corr", "multi_parse_str", [[s.encode() for s in bad]])
+    # ---- (a, b, g) defaults, positional / keyword forms, results and arguments used again
+    for n in [0, 1, 22, 23, 24, 100, 255, 256, 400, 1000] + [r.randrange(0, 500) for _ in range(ctx.n(6, 80))]:
+        payload = ctx.rbytes(n)
+        other = r.choice([payload + b"\x00", payload[:-1], ctx.rbytes(n), payload[:-1] + bytes([payload[-1] ^ 1]) if payload else b"\x01"])
+        L = enc_len_of(n)
+        chunk = max(1, r.choice([1 if L < 300 else 7, 7, 50, 300, L - 1, L, L + 1, L // 2, r.randrange(1, L + 2)]))
+        if L // chunk > 300:
+            chunk = L // 40
+        ctx.label("entry/defaults-positional-keyword-reuse")
+        yield ("prop", "entry", [payload, other, chunk])
+    # ---- (c) CBOR wrappers: prefix width x declared length x bytes present
+    for declared in (0, 1, 2, 22, 23, 24, 255, 256, 300):
+        heads = [bytes([0x58, declared & 0xff]), b"\x59" + declared.to_bytes(2, "big"), b"\x60" + declared.to_bytes(4, "big")]
+        if declared <= 23:
+            heads.append(bytes([0x40 + declared]))
+        for h in heads:
+            d = declared & 0xff if h[0] == 0x58 else declared
+            for present in sorted({0, max(0, d - 1), d, d + 1, d + 7}):
+                ctx.label("cbor-matrix/" + ("declared-0-bytes-present" if d == 0 and present else
+                                            "short" if present < d else "exact" if present == d else "trailing"))
+                data = h + ctx.rbytes(present)
+                yield ("prop", "cbor_dec", [data])
+                yield ("corr", "cbor_decode", [data])
+    for h in (b"", b"\x58", b"\x59", b"\x59\x01", b"\x60", b"\x60\x00", b"\x60\x00\x00\x01", b"\x5a\x00\x00\x00\x01q", b"\x57", b"\x40",
+              b"\x3f", b"\x61\x00", b"\x78\x01q", b"\x5f", b"\xff"):
+        ctx.label("cbor-matrix/truncated-or-foreign-head")
+        yield ("prop", "cbor_dec", [h])
+        yield ("corr", "cbor_decode", [h])
+    for n in (0, 1, 5, 23, 24, 100, 255):
+        payload = ctx.rbytes(n)
+        for kind in (4, 5):
+            extra = ctx.rbytes(r.choice([1, 3, 30]))
+            y = r.choice([1, 2, 3])
+            ctx.label("noncanonical-cbor/kind%d" % kind)
+            yield ("prop", "noncanon", [payload, kind, extra, y])
+            enc, chk, strings = noncanon_strings(noncanon(payload, kind, extra), y)
+            yield ("corr", "bcur_decode", [enc.encode(), [chk.encode()]])
+            yield ("corr", "multi_parse_str", [[t.encode() for t in strings]])
+            yield ("corr", "single_parse_str", [f"ur:bytes/{chk}/{enc}".encode()])
+
+
 def generate(ctx):
     r = ctx.rng
     # ---------------- CBOR
@@ -1532,5 +2024,7 @@ def generate(ctx):
     yield from hardening(ctx)
     # ---------------- bc32 / BCUR texts by character class (digits only, letters only, one letter, case classes)
     yield from charclass(ctx)
+    # ---------------- entry-point audit: lenient decoders with compensation, differing parts, reuse, defaults, CBOR matrix
+    yield from entrypoints(ctx)
     # ---------------- histories: long-lived BCUR objects, parse / codecs called repeatedly on nearly equal payloads
     yield from histories(ctx)
